@@ -1,6 +1,7 @@
 import FalconModel.Multipart
 import FalconModel.MultipartFlat
 import FalconModel.MediaType
+import FalconModel.QuotedString
 open Rd Mp
 
 def hexD (n : Nat) : Char := if n < 10 then Char.ofNat (48+n) else Char.ofNat (87+n)
@@ -100,11 +101,25 @@ def showParams (ps : Mt.Params) : String :=
   if ps.isEmpty then "-" else
   ";".intercalate ((ps.map fun (k, v) => hexChars k ++ "=" ++ hexChars v).foldr insertSorted [])
 
+/-! the reference quoted-string writer `Qe.quote` / `Qe.renderG` (FalconModel/QuotedString.lean, the encoder of the round-trip
+  theorems `Mt.parseHeader_render[G]`): `qs <hex value>` -> `<hex of DQUOTE escaped DQUOTE>`;
+  `rdg <hex main> <before:after:name:value,...|->` (each hex, `-` = empty) -> `<hex of the header value>` -/
+def hexToChars (s : String) : List Char := (fromHex s).map fun b => Char.ofNat b.toNat
+
+def parseGParams (s : String) : List Qe.GParam :=
+  if s == "-" then [] else
+  (s.splitOn ",").filterMap fun item =>
+    match item.splitOn ":" with
+    | [b, a, n, v] => some ⟨hexToChars b, hexToChars a, hexToChars n, hexToChars v⟩
+    | _ => none
+
 def flatStep (ws : List String) : Option String :=
   match ws with
   | ["ph", line] =>
     let (k, ps) := Mt.parseHeader ((fromHex line).map fun b => Char.ofNat b.toNat)
     some (hexChars k ++ " " ++ showParams ps)
+  | ["qs", v] => some (hexChars (Qe.quote (hexToChars v)))
+  | ["rdg", main, params] => some (hexChars (Qe.renderG (hexToChars main) (parseGParams params)))
   | ["encode", b, pre, epi, fin, parts] =>
     some (hexOr (Mf.encodeForm (parseParts parts) (fromHex b) (fromHex pre) (fromHex epi) (fin == "1")))
   | ["parseflat", body, b, maxhdr, maxcount] =>
